@@ -137,8 +137,15 @@ func (o *orC17) onIterLeave(it *iterRec) {
 			return
 		}
 	}
-	// master is kept online unless marked for recovery
-	if msv != nil && msv.Up && msv.Offline && it.faults == 0 && msv.StartedAt < it.startT && it.next == "Manager" {
+	// master is kept online unless marked for recovery (the repair pass runs only while the
+	// master's own daemon publishes a health record)
+	healthSeen := false
+	for _, r := range it.reads {
+		if r.path == "health/"+master && r.op == "get" && r.err == 0 {
+			healthSeen = true
+		}
+	}
+	if msv != nil && msv.Up && msv.Offline && it.faults == 0 && msv.StartedAt < it.startT && it.next == "Manager" && healthSeen {
 		if _, rec := s.zk.get("/test/recovery/" + master); !rec {
 			o.masterOffRuns++
 			if o.masterOffRuns >= 4 {
